@@ -6,7 +6,10 @@
 REPO_DIR="${1:-/repo}"
 OUT="$(mktemp /var/tmp/psv-junit-XXXXXX.xml)"
 cd "$REPO_DIR" || exit 2
-/venv/bin/python -m pytest -ra -q -p no:cacheprovider --timeout=900 --continue-on-collection-errors --deselect psutil/tests/test_process_all.py::TestFetchAllProcesses --junitxml="$OUT" > "$OUT.log" 2>&1
+# stdin from /dev/null and no inherited descriptors: test_unix_socketpair & co. require that the pytest process holds no
+# UNIX socket of its own (a nohup'ed / tool-spawned shell may hand one down as stdin or as an extra descriptor)
+CLEAN='import subprocess,sys; sys.exit(subprocess.call(sys.argv[1:], stdin=subprocess.DEVNULL, close_fds=True))'
+/venv/bin/python -c "$CLEAN" /venv/bin/python -m pytest -ra -q -p no:cacheprovider --timeout=900 --continue-on-collection-errors --deselect psutil/tests/test_process_all.py::TestFetchAllProcesses --junitxml="$OUT" > "$OUT.log" 2>&1
 python3 - "$OUT" <<'PY'
 import json, sys, xml.etree.ElementTree as ET
 base = json.load(open('/root/.vp/BASELINE.json'))
@@ -39,7 +42,7 @@ for l in open(sys.argv[1]).read().split('\n'):
 PY
 )
     sleep 5
-    if /venv/bin/python -m pytest -q -p no:cacheprovider --timeout=900 $ids > "$OUT.retry.log" 2>&1; then
+    if /venv/bin/python -c "$CLEAN" /venv/bin/python -m pytest -q -p no:cacheprovider --timeout=900 $ids > "$OUT.retry.log" 2>&1; then
       echo "  (the missing tests pass when re-run alone, attempt $attempt: flaky under parallel load)"
       rc=0; break
     fi
